@@ -230,6 +230,8 @@ def c16(proj, rep, tier):
     rep.floor('G1 layout obligations inside numqi.gellmann', n, 12)
     n = gellmann.g4(proj, rep)
     rep.floor('G4 linearity / with_I-order obligations', n, 3)
+    n = gellmann.g6(proj, rep)
+    rep.floor('G6 Hermiticity / normalisation of the basis arms', n, 4)
     nsite, ntyped = gellmann.g2(proj, rep, None)
     rep.floor('G2 synthesis call sites in the package', nsite, 20)
     rep.floor('G2 projected sites typed', ntyped, 10)
